@@ -458,6 +458,13 @@ fn main() {
             if !t.ends_with('\n') {
                 out.push('\n');
             }
+            if canary && label == "spec" {
+                // vacuity guard for the property lemmas: a twin of every `proof fn` with `ensures false` must fail
+                for tw in lemma_twins(&t) {
+                    out.push_str(&tw);
+                    out.push('\n');
+                }
+            }
             line_map.push(json!({"from": l0, "to": cur_line(&out) - 1, "kind": label, "file": p}));
         }
     }
@@ -564,6 +571,35 @@ fn main() {
     });
     std::fs::write(&out_meta, serde_json::to_string_pretty(&meta).unwrap())
         .unwrap_or_else(|e| die(&format!("cannot write meta: {e}")));
+}
+
+/// text-level twins of the `pub proof fn`s of a spec file (the file is ours, so brace matching on text is enough)
+fn lemma_twins(text: &str) -> Vec<String> {
+    let mut out = Vec::new();
+    let mut from = 0;
+    while let Some(p) = text[from..].find("pub proof fn ") {
+        let start = from + p;
+        let name_start = start + "pub proof fn ".len();
+        let name_end = name_start + text[name_start..].find(|c: char| !(c.is_alphanumeric() || c == '_')).unwrap_or(0);
+        // body = first `{` at the start of a line after the signature ... matching brace
+        let Some(b) = text[name_end..].find("\n{") else { break };
+        let body_start = name_end + b + 1;
+        let mut depth = 0i32;
+        let mut end = body_start;
+        for (i, c) in text[body_start..].char_indices() {
+            if c == '{' { depth += 1; }
+            if c == '}' { depth -= 1; if depth == 0 { end = body_start + i + 1; break; } }
+        }
+        let sig = &text[start..body_start];
+        if let Some(e) = sig.find("\n    ensures") {
+            let e_end = e + "\n    ensures".len();
+            let twin = format!("pub proof fn {}__canary{}{}\n        false,{}{}",
+                &text[name_start..name_end], &sig[name_end - start..e], "\n    ensures", &sig[e_end..], &text[body_start..end]);
+            out.push(twin);
+        }
+        from = end.max(name_end);
+    }
+    out
 }
 
 // Helpers shared with rules.rs -------------------------------------------------------------
